@@ -60,6 +60,10 @@ def sweep_length(quick):
     ns = [0, 1, 2, 2047, 2048, 2049, 4025, 4026, 4027, 4095, 4096, 4097, 6144, 6145, 8121, 8122, 8123, 12218]
     for n in ns:
         ses = {(0, n), (min(1, n), n), (0, max(n - 1, 0)), (min(1, n), max(n - 1, min(1, n))), (n, n), (0, 0)}
+        if n >= 8:
+            ses |= {(2, n - 1), (5, n - 3), (n // 2, n // 2 + 1), (n // 3, n - 2)}
+        if n >= 400:
+            ses |= {(100, n - 100), (200, 300)}
         for (s, e) in sorted(ses):
             for order in ("asc", "desc", "rot"):
                 if A.needed_sectors(140 + 2 * n) == 1 and order != "asc":
